@@ -56,13 +56,17 @@ define('C01', 'multiplexing is transparent', SCALAR + MISC_OPS + PLUMB + TEE + [
        A_COMMON + ['RxPY plain operators (ops.map/filter/first/last/take/to_list/do_action) are assumed to have their documented list semantics'], 'DESIGN 7/C01')
 define('C02', 'state confinement', STORE + SCALAR + SEQ + [op('seqops', 'assert_1_mux')] + SPAWN + TEE + HELP('batch', 'distinct_until_changed', 'formal') + LEAN('KT', 'L2', 'L3b')
        + [bounded('mux', 'check_c02')], A_COMMON, 'DESIGN 7/C02')
-define('C03', 'mux event protocol', SCALAR + SEQ + MISC_OPS + PLUMB + ERRORS + SPAWN + TEE + LEAN('L3', 'L3b') + [bounded('mux', 'check_c03')], A_COMMON, 'DESIGN 7/C03')
+define('C03', 'mux event protocol', SCALAR + SEQ + MISC_OPS + PLUMB + ERRORS + SPAWN + TEE + LEAN('L3', 'L3b') + [bounded('mux', 'check_c03')], A_COMMON, 'DESIGN 7/C03',
+       level='other', level_why="partial: every per-handler obligation is discharged, under assumption A5' (no mux error crosses a key-spawning operator); "
+       'with such an error the protocol is broken at the inner boundaries of roll / time_split (known finding KF1), so the property is not claimed as proved')
 define('C04', 'group_by partitions', [op('spawners', 'group_by_mux'), op('seqops', 'demux_mux_observable')] + STORE + [bounded('mux', 'check_c04')], A_COMMON, 'DESIGN 7/C04')
 define('C05', 'roll windows', [op('roll', 'roll_mux'), op('roll', 'roll_count'), op('seqops', 'demux_mux_observable')] + STORE + [bounded('mux', 'check_c05')], A_COMMON, 'DESIGN 7/C05')
 define('C06', 'split', [op('spawners', 'split_mux'), op('seqops', 'demux_mux_observable')] + [bounded('mux', 'check_c06')], A_COMMON, 'DESIGN 7/C06')
 define('C07', 'time_split', [op('spawners', 'time_split_mux'), op('seqops', 'demux_mux_observable')] + [bounded('mux', 'check_c07')],
        A_COMMON + ['datetime / timedelta arithmetic is an ordered group (modelled as reals); timeouts are positive'], 'DESIGN 7/C07')
-define('C08', 'tee_map join', TEE + [bounded('mux', 'check_c08')], A_COMMON + ['number of branches: n = 2, 3 (bounded parameter); rx publish/connect assumed'], 'DESIGN 7/C08')
+define('C08', 'tee_map join', TEE + [bounded('mux', 'check_c08')], A_COMMON + ['number of branches: n = 2, 3 (bounded parameter); rx publish/connect assumed'], 'DESIGN 7/C08',
+       level='other', level_why='partial: the join handlers and the wiring are discharged for every event case (n = 2, 3 branches); on plain cold sources a branch of RxPY operators that subscribe '
+       'through the scheduler misses the items (known finding KF3), so the plain half of the property is not claimed as proved')
 define('C09', 'scan/reduce algebra', [op('scalar', 'scan_mux')] + LEAN('L2') + PLAIN('scan') + HELP('batch', 'distinct_until_changed', 'math', 'formal', 'misc') + STORE + [bounded('mux', 'check_c09')],
        A_COMMON, 'DESIGN 7/C09')
 define('C10', 'per-key sequence operators', [op('scalar', n) for n in ('first_mux', 'take_mux', 'last_mux')] + SEQ + HELP('batch', 'distinct_until_changed') + PLAIN('to_deque')
